@@ -6,7 +6,7 @@ import ast
 import re as _re
 from typing import Dict, Optional
 
-from ..core import Unrecognised, call_name, calls_in, dotted, module_of, qual, site, src, walk_local, assignments_to, parent
+from ..core import facts, has_fact, Unrecognised, call_name, calls_in, dotted, module_of, qual, site, src, walk_local, assignments_to, parent
 from ..dispatch import check_flow_arity, find_flow_tables, resolve_handler
 
 PRED = "src/isla/isla_predicates.py"
@@ -17,7 +17,9 @@ EXPLANATION = (
     "strings of the `decimal` argument only in base 10, oct() is only applied to numbers read from the decimal side, and compared numbers are "
     "both plain integers; (A1) the three handlers of the octal_to_dec dispatch table accept the four arguments they are dispatched with and "
     "their guards cover tree/variable argument kinds; (J2) proposed replacement trees are parsed with the parser of the *other* radix. "
-    "NOT decided: numeric meaning of count / crop / just predicates (runtime values; see C14 for their gates)."
+    "(J3) crop / ljust / rjust: the replacement text is unparsed[:width] (crop), str.ljust/str.rjust to width cropped at the matching end; no slice s[-n:] with a variable n not known to be non-zero "
+    "(it is the whole string for n == 0); verdict True exactly under len == width (just) / len <= width (crop); an unbound width gets str(len(text)). "
+    "NOT decided: numeric meaning of count (see C14 for its gates)."
 )
 
 # tags
@@ -184,7 +186,82 @@ def rule_a(ctx):
                       f"{n.name} must wrap {want}, it calls {sorted(used)}", "wraps the matching parser")
 
 
+def _slice_kind(sub: ast.Subscript, width: str = "width"):
+    """('prefix'|'suffix'|'suffix-neg', text) for x[:W], x[len(x) - W:], x[-W:]; None for other subscripts."""
+    sl = sub.slice
+    if not isinstance(sl, ast.Slice) or sl.step is not None:
+        return None
+    base = src(sub.value)
+    if sl.lower is None and sl.upper is not None and src(sl.upper) == width:
+        return "prefix"
+    if sl.upper is None and sl.lower is not None:
+        lo = sl.lower
+        if isinstance(lo, ast.BinOp) and isinstance(lo.op, ast.Sub) and src(lo.left) == f"len({base})" and src(lo.right) == width:
+            return "suffix"
+        if isinstance(lo, ast.UnaryOp) and isinstance(lo.op, ast.USub) and src(lo.operand) == width:
+            return "suffix-neg"
+    return "other"
+
+
+def rule_j3(ctx):
+    """crop / ljust / rjust: the text that is parsed for the replacement has exactly the requested width (and is the right end of the padded text)."""
+    m = ctx.repo.module(PRED, "C20.J3")
+    # generic: s[-n:] with a variable n is the WHOLE string for n == 0
+    n_neg = 0
+    for q, fn in m.functions():
+        for sub in [x for x in walk_local(fn) if isinstance(x, ast.Subscript) and isinstance(x.slice, ast.Slice)]:
+            lo = sub.slice.lower
+            if sub.slice.upper is None and isinstance(lo, ast.UnaryOp) and isinstance(lo.op, ast.USub) and not isinstance(lo.operand, ast.Constant):
+                n_neg += 1
+                w = src(lo.operand)
+                fs = facts(sub)
+                pos = has_fact(fs, f"{w} > 0") or has_fact(fs, f"{w} >= 1") or has_fact(fs, f"{w} != 0") or has_fact(fs, f"{w} == 0", False) or has_fact(fs, w)
+                ctx.check(pos, "J3-width-slice", f"{PRED}:{q}", f"{src(sub)[:50]} with {w} known non-zero", site(sub),
+                          f"`{src(sub)}` keeps the last {w} characters only for {w} > 0; for {w} == 0 it is the WHOLE string, so cropping to width 0 proposes the unchanged (too wide) tree", "guarded by a non-zero test")
+    ctx.inventory["negative_variable_slices"] = n_neg
+    f = ctx.repo.func(PRED, "just", "C20.J3")
+    c = f"{PRED}:just"
+    pad = [a for a in walk_local(f) if isinstance(a, ast.Assign) and src(a.targets[0]) == "unparsed_output" and isinstance(a.value, ast.IfExp)]
+    if len(pad) != 2:
+        raise Unrecognised("C20.J3", c, f"expected the padding and the cropping assignment of unparsed_output (found {len(pad)})")
+    padding, cropping = pad
+    ok = src(padding.value.test) == "ljust" and src(padding.value.body) == "unparsed.ljust(width, fill_char)" and src(padding.value.orelse) == "unparsed.rjust(width, fill_char)"
+    ctx.check(ok, "J3-just", c, "ljust pads on the right, rjust on the left, to `width` with the fill character", site(padding), f"padding is `{' '.join(src(padding.value).split())}`", "str.ljust / str.rjust by flag")
+    if src(cropping.value.test) != "ljust" or not has_fact(facts(cropping), "crop"):
+        raise Unrecognised("C20.J3", c, "cropping assignment not `... if ljust else ...` under `if crop`")
+    kb = _slice_kind(cropping.value.body) if isinstance(cropping.value.body, ast.Subscript) and src(cropping.value.body.value) == "unparsed_output" else None
+    ko = _slice_kind(cropping.value.orelse) if isinstance(cropping.value.orelse, ast.Subscript) and src(cropping.value.orelse.value) == "unparsed_output" else None
+    if kb is None or ko is None or "other" in (kb, ko):
+        raise Unrecognised("C20.J3", c, f"crop expressions `{src(cropping.value.body)}` / `{src(cropping.value.orelse)}` not understood")
+    ctx.check(kb == "prefix", "J3-just", c, "left-justified text is cropped at the right end (keeps the first `width` characters)", site(cropping.value.body), f"ljust crop is a {kb} slice", "unparsed_output[:width]")
+    if ko == "suffix-neg":
+        pass  # judged by the generic J3-width-slice rule above
+    else:
+        ctx.check(ko == "suffix", "J3-just", c, "right-justified text is cropped at the left end (keeps the last `width` characters)", site(cropping.value.orelse), f"rjust crop is a {ko} slice", "unparsed_output[len(unparsed_output) - width:]")
+    tv = [r for r in walk_local(f) if isinstance(r, ast.Return) and src(r.value) == "SemPredEvalResult(True)"]
+    ok = len(tv) == 1 and has_fact(facts(tv[0]), "len(unparsed) == width")
+    ctx.check(ok, "J3-just", c, "True exactly when the text already has the requested width", site(f), "verdict True must be under len(unparsed) == width", "len(unparsed) == width")
+    asr = [a for a in walk_local(f) if isinstance(a, ast.Assert) and src(a.test) == "crop or len(unparsed_output) == width"]
+    ctx.check(len(asr) == 1, "J3-just", c, "without crop the padded text has exactly the requested width", site(f), "assertion `crop or len(unparsed_output) == width` missing", "asserted")
+    ps = [x for x in calls_in(f) if call_name(x) == "parser"]
+    ok = len(ps) == 1 and src(ps[0].args[0]) == "unparsed_output" and any(isinstance(a, ast.Assign) and src(a.targets[0]) == "parser" and src(a.value) == "mk_parser(tree.value)" for a in walk_local(f))
+    ctx.check(ok, "J3-just", c, "replacement parsed from the padded/cropped text with the tree's own nonterminal", site(f), "parser(unparsed_output) with mk_parser(tree.value)", "own nonterminal")
+    g = ctx.repo.func(PRED, "crop", "C20.J3")
+    c2 = f"{PRED}:crop"
+    tv = [r for r in walk_local(g) if isinstance(r, ast.Return) and src(r.value) == "SemPredEvalResult(True)"]
+    ok = len(tv) == 1 and has_fact(facts(tv[0]), "len(unparsed) <= width")
+    ctx.check(ok, "J3-crop", c2, "True exactly when the text is not wider than `width`", site(g), "verdict True must be under len(unparsed) <= width", "len(unparsed) <= width")
+    ps = [x for x in calls_in(g) if call_name(x) == "parser"]
+    ok = len(ps) == 1 and isinstance(ps[0].args[0], ast.Subscript) and src(ps[0].args[0].value) == "unparsed" and _slice_kind(ps[0].args[0]) == "prefix"
+    ctx.check(ok, "J3-crop", c2, "replacement = first `width` characters", site(g), f"parsed text is `{src(ps[0].args[0]) if ps else None}`", "unparsed[:width]")
+    for fn_, cc in ((f, c), (g, c2)):
+        vr = [r for r in walk_local(fn_) if isinstance(r, ast.Return) and "str(len(unparsed))" in src(r.value)]
+        ok = len(vr) == 1 and has_fact(facts(vr[0]), "isinstance(width, Variable)") and src(vr[0].value) == "SemPredEvalResult({width: DerivationTree(str(len(unparsed)), None)})"
+        ctx.check(ok, "J3-width-variable", cc, "an unbound width is instantiated with the actual length", site(fn_), "width variable must be bound to str(len(unparsed))", "len of the text")
+
+
 def run(ctx) -> str:
+    ctx.guarded("J3", lambda: rule_j3(ctx))
     ctx.guarded("J", lambda: rule_j(ctx))
     ctx.guarded("A", lambda: rule_a(ctx))
     ctx.assume("parameter names `octal` / `decimal` of the octal_to_dec_* family are the documented argument roles")
